@@ -5,7 +5,7 @@ CHECK = {
     "runs": [dict(r, scale_thorough=st) for r, st in zip(three("c01_queue", ["--as", "C01"], scales=(1.0, 1.0, 2.0)),
                                                       # thorough budgets are ~45x the quick ones: full scale under TSan needs
                                                       # ~2 h and ran into the harness' own 3000 s cap (inconclusive)
-                                                      (0.12, 0.2, 0.6))],
+                                                      (0.1, 0.1, 0.4))],
     "design_ref": "DESIGN.md §5 C01",
     "technique": "stress + schedule perturbation; offline history checker (exactly-once, real-time FIFO, try_ "
                  "legitimacy) + sequential deque model + per-slot exclusivity flags; TSan/ASan/UBSan",
